@@ -116,7 +116,7 @@ def run_job(job):
 
 def main(chk):
     quick = chk.tier == "quick"
-    n = 200 if quick else 1600
+    n = 800 if quick else 3200
     jobs = [{"id": "j%d" % i, "seed": job_seed(chk.seed, "C05", i), "queries": 14 if quick else 24} for i in range(n)]
     for i in range(2 if quick else 16):
         jobs.append({"id": "large%d" % i, "seed": job_seed(chk.seed, "C05", "L%d" % i), "queries": 6, "extra": 2500})
